@@ -25,7 +25,7 @@ SITES = os.path.join(vlib.ROOT, 'tools', 'checks', 'c05_sites.json')
 KNOWN_HANDOFF = ('final simulated time and time-derived metrics (CPI stacks, cache/DRAM latencies) differ between identical '
                  'serial-engine runs depending on host scheduling (frequent with GOMAXPROCS>1, rare with 1): driver.runAsync pauses the '
                  'engine wherever it is and TickLater schedules the next command relative to that time (hand-off race; Coq: '
-                 'handoff_time_refuted); differences vanish with GOMAXPROCS=1 GOGC=off')
+                 'handoff_time_refuted); the same cause makes the rows CPIStack.total / SIMDCPIStack.total, which read the engine clock at report time, depend on whether the engine goroutine has finished; all differences vanish when the application waits for the engine to go idle after every drain (settled schedule)')
 
 
 # ------------------------------------------------------------------ translator
@@ -112,20 +112,37 @@ def engine_nontrivial(c):
 
 # ------------------------------------------------------------------ whole-simulation runs
 
-def sim_run(binary, spec, gmp, idx, quiet=False):
+def sim_run(binary, spec, gmp, idx, quiet=False, gogc=None, settle=False, hold=0, twice=False):
+    """One process.  gmp/gogc perturb the Go runtime; settle / hold steer the host schedule through the driver's
+    yield hook (see harness/cmd/c05: C05_SETTLE, C05_HOLD_AFTER); twice = two simulations in the process."""
     wl, size, rounds, flags = spec['wl'], spec['size'], spec['rounds'], spec['flags']
     d = tempfile.mkdtemp(prefix='c05_%s_' % spec['name'].replace('/', '_'))
     env = dict(os.environ)
+    for k in ('GOGC', 'GODEBUG', 'C05_SETTLE', 'C05_HOLD_AFTER', 'C05_TWICE'):
+        env.pop(k, None)
     env['GOMAXPROCS'] = str(gmp)
     env['C05_HSACO'] = os.path.join(vlib.REPO, 'amd', 'tests', 'deterministic', 'empty_kernel', 'kernels.hsaco')
-    if quiet:   # one P and no garbage collections: the hand-off race practically cannot fire
-        env['GOGC'] = 'off'
+    if quiet:
+        gogc = 'off'
+    pre = 'GOMAXPROCS=%d ' % gmp
+    if gogc is not None:
+        env['GOGC'] = str(gogc)
+        pre += 'GOGC=%s ' % gogc
+    if settle:
+        env['C05_SETTLE'] = '1'
+        pre += 'C05_SETTLE=1 '
+    if hold:
+        env['C05_HOLD_AFTER'] = str(hold)
+        pre += 'C05_HOLD_AFTER=%d ' % hold
+    if twice:
+        env['C05_TWICE'] = '1'
+        pre += 'C05_TWICE=1 '
     cmd = [binary, 'sim', wl, str(size), str(rounds), '--'] + flags
-    res = {'cmd': 'GOMAXPROCS=%d %s%s' % (gmp, 'GOGC=off ' if quiet else '', ' '.join(cmd)), 'gomaxprocs': gmp, 'quiet': quiet,
-           'name': spec['name'], 'idx': idx}
+    res = {'cmd': pre + 'C05_HSACO=%s ' % env['C05_HSACO'] + ' '.join(cmd), 'gomaxprocs': gmp, 'gogc': gogc, 'settle': settle, 'hold': hold,
+           'twice': twice, 'quiet': quiet, 'name': spec['name'], 'idx': idx}
     try:
         for attempt in range(3):
-            rc, log = vlib.run(cmd, cwd=d, env=env, timeout=spec.get('timeout', 60))
+            rc, log = vlib.run(cmd, cwd=d, env=env, timeout=spec.get('timeout', 60) * (2 if twice else 1))
             res['rc'] = rc
             if rc != 124:
                 break
@@ -134,18 +151,28 @@ def sim_run(binary, spec, gmp, idx, quiet=False):
             for f in glob.glob(os.path.join(d, '*.sqlite3')):
                 os.remove(f)
         res['tail'] = log[-600:]
-        line = [l for l in log.split('\n') if l.startswith('C05SIM ')]
-        res['out'] = json.loads(line[0][7:]) if line else None
-        rows = None
-        fs = glob.glob(os.path.join(d, 'akita_sim_*.sqlite3'))
-        if fs and spec.get('metrics', True):
+        outs = [json.loads(l[7:]) for l in log.split('\n') if l.startswith('C05SIM ')]
+
+        def rows_of(o):
+            if not o or not spec.get('metrics', True):
+                return None
+            f = os.path.join(d, o.get('sqlite') or '')
+            if not o.get('sqlite') or not os.path.exists(f):
+                return None
             try:
-                con = sqlite3.connect(fs[0])
-                rows = [list(r) for r in con.execute('select Location, What, Value, Unit from mgpusim_metrics').fetchall()]
+                con = sqlite3.connect(f)
+                # the complete table, whatever rows the reporter writes
+                rows = [list(r) for r in con.execute('select Location, What, Value, Unit from mgpusim_metrics order by rowid').fetchall()]
                 con.close()
+                return rows
             except sqlite3.Error:
-                rows = None
-        res['rows'] = rows
+                return None
+        res['out'] = outs[0] if outs else None
+        res['rows'] = rows_of(res['out'])
+        if twice:
+            o2 = outs[1] if len(outs) > 1 else None
+            res['second'] = {'rc': rc, 'out': o2, 'rows': rows_of(o2), 'cmd': res['cmd'] + '  [second simulation in the same process]',
+                             'gomaxprocs': gmp}
     finally:
         shutil.rmtree(d, ignore_errors=True)
     return res
@@ -226,9 +253,9 @@ def workloads(thorough):
     T = ['-timing', '-report-all', '-verify', '-disable-rtm']
     w = [
         {'name': 'fir64-emu', 'wl': 'fir', 'size': 64, 'rounds': 0, 'flags': ['-verify', '-disable-rtm']},
-        {'name': 'fir256-timing', 'wl': 'fir', 'size': 256, 'rounds': 0, 'flags': T},
-        {'name': 'mt64-timing', 'wl': 'mt', 'size': 64, 'rounds': 0, 'flags': T},
-        {'name': 'copy4k-timing', 'wl': 'copy', 'size': 4096, 'rounds': 3, 'flags': T},
+        {'name': 'fir256-timing', 'wl': 'fir', 'size': 256, 'rounds': 0, 'flags': T, 'hold': True, 'twice': True},
+        {'name': 'mt64-timing', 'wl': 'mt', 'size': 64, 'rounds': 0, 'flags': T, 'hold': True},
+        {'name': 'copy4k-timing', 'wl': 'copy', 'size': 4096, 'rounds': 3, 'flags': T, 'hold': True},
         {'name': 'fir256-2gpu-timing', 'wl': 'fir', 'size': 256, 'rounds': 0, 'flags': T + ['-gpus=1,2']},
         {'name': 'fir256-timing-parallel', 'wl': 'fir', 'size': 256, 'rounds': 0, 'parallel': True, 'metrics': False,
          'flags': ['-timing', '-parallel', '-verify', '-disable-rtm']},
@@ -239,13 +266,19 @@ def workloads(thorough):
     w += [
         {'name': 'streams3-1gpu-timing', 'wl': 'streams', 'size': 600, 'rounds': 3, 'prefilled': True, 'queues': 3, 'flags': ['-timing', '-report-all', '-disable-rtm']},
         {'name': 'multiq-2gpu-timing', 'wl': 'multiq', 'size': 256, 'rounds': 16, 'prefilled': True, 'queues': 2, 'flags': ['-timing', '-report-all', '-disable-rtm', '-gpus=1,2'],
-         'gmps': [1, 1, 1, 2, 4, 16, 16, 16] if not thorough else [1, 1, 1, 1, 2, 2, 4, 4, 16, 16, 16, 16]},
+         'reps': 8 if not thorough else 12},
     ]
-    # one long kernel (4096 work-groups x 8 wavefronts: work-groups complete while others still wait to be dispatched);
-    # every repetition quiet (GOMAXPROCS=1 GOGC=off), so the known hand-off race is out of the picture
+    # long kernels: more work-groups than the GPU holds at once, completions interleave with dispatch, wavefront objects
+    # are reused; two kernels in a row; both timing platforms
+    L = ['-timing', '-report-all', '-disable-rtm']
     w += [
-        {'name': 'longkernel-4096wg-timing', 'wl': 'longk', 'size': 4096, 'rounds': 8, 'prefilled': True, 'queues': 1, 'quiet_all': True,
-         'timeout': 120, 'gmps': [1, 1, 1, 1] if not thorough else [1] * 8, 'flags': ['-timing', '-report-all', '-disable-rtm']},
+        {'name': 'longkernel-4096wg-timing', 'wl': 'longk', 'size': 4096, 'rounds': 8, 'prefilled': True, 'queues': 1, 'timeout': 120, 'flags': L},
+        {'name': 'longk2-r9nano-timing', 'wl': 'longk2', 'size': 1536, 'rounds': 8, 'prefilled': True, 'queues': 1, 'timeout': 120, 'flags': L,
+         'twice': True, 'unsettled': 1},
+        {'name': 'longk2-mi300a-timing', 'wl': 'longk2', 'size': 1024, 'rounds': 8, 'prefilled': True, 'queues': 1, 'timeout': 120,
+         'flags': L + ['-gpu=mi300a'], 'unsettled': 1},
+        {'name': 'fir2048-mi300a-cdna3-timing', 'wl': 'fir', 'size': 2048, 'rounds': 0, 'flags': T + ['-arch=cdna3', '-gpu=mi300a'],
+         'twice': True, 'hold': True},
     ]
     if thorough:
         w += [
@@ -272,68 +305,117 @@ def same_shape(a, b):
     return ka == kb and [c[0] for c in commands(a)] == [c[0] for c in commands(b)]
 
 
-def compare_workload(binary, spec, gmps, pool):
-    """Returns (runs, verdict, detail): verdict in ok | handoff | violation.
+# Go-runtime perturbations (GOMAXPROCS, GOGC) of the settled repetitions: GC after almost every allocation, no GC at
+# all, few / many Ps.  Each repetition is a fresh process (per-process hash seeds, map iteration seeds, ASLR).
+PERT_QUICK = [(1, 'off'), (1, '1'), (4, '20'), (16, None)]
+PERT_THOROUGH = PERT_QUICK + [(16, '1'), (2, 'off'), (4, None), (1, '400')]
+# metric rows known to read the engine clock while the engine goroutine may still run (C05/handoff-race)
+KNOWN_CLOCK_ROWS = ('CPIStack.total', 'SIMDCPIStack.total')
 
-    Phase A: repetitions under the given GOMAXPROCS values.  If they are not all
-    identical, phase B decides what kind of nondeterminism it is: 6 'quiet'
-    repetitions (GOMAXPROCS=1, GOGC=off) in which the known hand-off race
-    practically cannot fire (measured: < 3e-4 per hand-off) while map order, random
-    numbers and clocks are as nondeterministic as ever.  Nondeterminism that shows
-    up among the quiet runs, or that changes the functional result or the set of
-    metric rows, is a VIOLATION; value differences that vanish in quiet runs are
-    the known hand-off class."""
-    runs = list(pool.map(lambda a: sim_run(binary, spec, a[1], a[0], quiet=bool(spec.get('quiet_all'))), list(enumerate(gmps))))
-    bad_rc = [r for r in runs if r['rc'] != 0]
-    if bad_rc:
-        r = bad_rc[0]
+
+def compare_workload(binary, spec, thorough, pool):
+    """Returns (runs, verdict, detail, notes): verdict in ok | handoff | violation.
+
+    S  settled repetitions (the application thread waits at the end of every DrainCommandQueue until the engine
+       goroutine has given up the engine, so the known hand-off race cannot occur) in fresh processes under perturbed
+       Go runtimes: must be bit-identical in every observable -> otherwise VIOLATION.
+    T  a second simulation in the same process must equal the first.
+    H  'slow engine' schedule: the engine goroutine is held after the last command was dequeued, so the reporter runs
+       while trailing events are pending: only the rows known to read the engine clock may differ.
+    U  unsettled repetitions (ordinary host scheduling): value-only differences from the settled reference are the known
+       hand-off race; different functional result / rows / command kinds are a VIOLATION."""
+    if spec.get('parallel'):
+        runs = list(pool.map(lambda a: sim_run(binary, spec, a[1], a[0]), list(enumerate([1, 2, 16, 16]))))
+        bad = [r for r in runs if r['rc'] != 0]
+        if bad:
+            return runs, 'violation', {'what': 'run failed (exit %s)' % bad[0]['rc'], 'cmd': bad[0]['cmd'], 'tail': bad[0]['tail']}, {}
+        if len({functional(r) for r in runs}) > 1:
+            o = next(r for r in runs if functional(r) != functional(runs[0]))
+            return runs, 'violation', {'what': 'functional results differ with the parallel engine', 'cmd_a': runs[0]['cmd'], 'cmd_b': o['cmd']}, {}
+        return runs, 'ok', None, {}
+
+    perts = PERT_THOROUGH if thorough else PERT_QUICK
+    reps = spec.get('reps', len(perts))
+    perts = [perts[i % len(perts)] for i in range(reps)]
+    nu = spec.get('unsettled', 2) * (2 if thorough else 1)
+    jobs = [dict(gmp=g, gogc=c, settle=True) for g, c in perts]
+    jobs += [dict(gmp=[16, 2, 4, 1][i % 4]) for i in range(nu)]
+    if spec.get('twice'):
+        jobs.append(dict(gmp=1, gogc='off', settle=True, twice=True))
+    res = list(pool.map(lambda a: sim_run(binary, spec, a[1].pop('gmp'), a[0], **a[1]), list(enumerate([dict(j) for j in jobs]))))
+    S = [r for r in res if r['settle'] and not r['twice']]
+    U = [r for r in res if not r['settle']]
+    TW = [r for r in res if r['twice']]
+    runs = list(res)
+    notes = {}
+    bad = [r for r in res if r['rc'] != 0]
+    if bad:
+        r = bad[0]
         return runs, 'violation', {'what': 'run failed (exit %s%s)' % (r['rc'], ', timeout' if r['rc'] == 124 else ''),
-                                   'cmd': r['cmd'], 'tail': r['tail']}
-    cnt = collections.Counter(observables(r, spec) for r in runs)
-    base_obs = cnt.most_common(1)[0][0]
-    base = next(r for r in runs if observables(r, spec) == base_obs)
-    dev = [r for r in runs if observables(r, spec) != base_obs]
-    if len(cnt) == 1 and not spec.get('prefilled'):
-        return runs, 'ok', None
+                                   'cmd': r['cmd'], 'tail': r['tail']}, notes
+    ref = S[0]
+    # S: settled repetitions must be identical
+    for r in S[1:]:
+        if observables(r, spec) != observables(ref, spec):
+            return runs, 'violation', {'what': 'repetitions in fresh processes differ although the application waits for the engine to go '
+                                               'idle after every drain (not the known hand-off race): depends on the Go runtime '
+                                               '(GC / number of Ps / per-process seeds)',
+                                       'cmd_a': ref['cmd'], 'cmd_b': r['cmd'], 'differing': row_diff(ref, r),
+                                       'outcome_counts': sorted(collections.Counter(observables(x, spec) for x in S).values(), reverse=True)}, notes
     if spec.get('prefilled'):
-        # every queue was filled before the first drain: nothing may run before it, so the commands picked up by the
-        # first driver tick (and that tick's time) are the same in every repetition, whatever the host schedule; the
-        # known hand-off race cannot touch this (the engine has never run when the first signal arrives)
+        # every queue was filled before the first drain: nothing may run before it, so the commands picked up by the first
+        # driver tick (and that tick's time) are the same in every repetition, whatever the host schedule
         sig = lambda r: (min([c[1] for c in commands(r)] or ['']), sum(1 for c in commands(r) if c[1] == min(x[1] for x in commands(r))))
-        odd = [r for r in runs if sig(r) != sig(base)] or [r for r in runs if sig(r)[1] < spec.get('queues', 0)]
+        odd = [r for r in S + U if sig(r) != sig(ref)] or [r for r in S + U if sig(r)[1] < spec.get('queues', 0)]
         if odd:
             return runs, 'violation', {'what': 'commands enqueued before the first drain were not all picked up by the first driver tick '
-                                               'in every repetition (first tick time, number of commands it started: %s vs %s; queues filled before the drain: %d)'
-                                               % (sig(base), sig(odd[0]), spec.get('queues', 0)),
-                                       'cmd_a': base['cmd'], 'cmd_b': odd[0]['cmd'], 'differing': row_diff(base, odd[0])}
-    if len(cnt) == 1:
-        return runs, 'ok', None
-    hard = [r for r in dev if spec.get('parallel') or not same_shape(base, r)]
+                                               'in every repetition (first tick time, number of commands it started: %s vs %s; queues filled '
+                                               'before the drain: %d)' % (sig(ref), sig(odd[0]), spec.get('queues', 0)),
+                                       'cmd_a': ref['cmd'], 'cmd_b': odd[0]['cmd'], 'differing': row_diff(ref, odd[0])}, notes
+    # T: second simulation in the same process
+    for t in TW:
+        second = t.get('second') or {}
+        if not second.get('out'):
+            return runs, 'violation', {'what': 'second simulation in the same process did not finish', 'cmd': t['cmd'], 'tail': t['tail']}, notes
+        if observables(second, spec) != observables(t, spec):
+            return runs, 'violation', {'what': 'a second simulation in the same process differs from the first (process-global state '
+                                               'reaches the simulation)', 'cmd_a': t['cmd'], 'cmd_b': second['cmd'],
+                                       'differing': row_diff(t, second)}, notes
+        if observables(t, spec) != observables(ref, spec):
+            return runs, 'violation', {'what': 'settled repetitions differ', 'cmd_a': ref['cmd'], 'cmd_b': t['cmd'], 'differing': row_diff(ref, t)}, notes
+    # H: reporter runs while the engine goroutine is held after the last command
+    if spec.get('hold'):
+        n = (ref['out'] or {}).get('dequeues') or 0
+        h = sim_run(binary, spec, 4, 900, hold=n)
+        runs.append(h)
+        if h['rc'] != 0 or not h['out']:
+            return runs, 'violation', {'what': 'run failed (exit %s)' % h['rc'], 'cmd': h['cmd'], 'tail': h['tail']}, notes
+        notes['hold_engaged'] = (h['out'] or {}).get('held')
+        if observables(h, spec) != observables(ref, spec):
+            ra, rb = ref['rows'] or [], h['rows'] or []
+            diffrows = [(x, y) for x, y in zip(ra, rb) if x != y]
+            known = (len(ra) == len(rb) and commands(ref) == commands(h) and functional(ref) == functional(h)
+                     and ref['out']['final_time_bits'] == h['out']['final_time_bits']
+                     and all(x[:2] == y[:2] and x[1] in KNOWN_CLOCK_ROWS for x, y in diffrows))
+            if not known:
+                bad_rows = [[x, y] for x, y in diffrows if not (x[:2] == y[:2] and x[1] in KNOWN_CLOCK_ROWS)][:4]
+                return runs, 'violation', {'what': 'the report depends on whether the engine goroutine has finished its trailing events when '
+                                                   'the application thread returns (slow-engine schedule vs settled schedule); rows other than '
+                                                   'the known %s differ' % (KNOWN_CLOCK_ROWS,),
+                                           'cmd_a': ref['cmd'], 'cmd_b': h['cmd'], 'differing': bad_rows + row_diff(ref, h)[-2:]}, notes
+            notes['report_clock_rows'] = len(diffrows)
+    # U: ordinary host scheduling
+    dev = [r for r in U if observables(r, spec) != observables(ref, spec)]
+    hard = [r for r in dev if not same_shape(ref, r)]
     if hard:
-        return runs, 'violation', {'what': 'repetitions of the same simulation differ in functional result or metric rows',
-                                   'cmd_a': base['cmd'], 'cmd_b': hard[0]['cmd'], 'differing': row_diff(base, hard[0])}
-    quiet = list(pool.map(lambda i: sim_run(binary, spec, 1, 100 + i, quiet=True), range(6)))
-
-    def split(qs):
-        good = [r for r in qs if r['rc'] == 0]
-        c = collections.Counter(observables(r, spec) for r in good)
-        b0 = c.most_common(1)[0][0] if c else None
-        return good, c, b0, [r for r in good if observables(r, spec) != b0]
-    qgood, qcnt, qbase_obs, qdev = split(quiet)
-    if len(qdev) == 1:      # ambiguous: one more batch decides
-        quiet += list(pool.map(lambda i: sim_run(binary, spec, 1, 200 + i, quiet=True), range(6)))
-        qgood, qcnt, qbase_obs, qdev = split(quiet)
-    runs += quiet
-    if len(qgood) < 4 or len(qdev) >= 2 or any(not same_shape(base, r) for r in qgood):
-        qb = next((r for r in qgood if observables(r, spec) == qbase_obs), base)
-        other = qdev[0] if qdev else dev[0]
-        return runs, 'violation', {'what': 'repetitions of the same simulation differ, also with one host thread and no GC '
-                                           '(not the known hand-off race)', 'cmd_a': qb['cmd'], 'cmd_b': other['cmd'],
-                                   'differing': row_diff(qb, other), 'quiet_outcome_counts': sorted(qcnt.values(), reverse=True),
-                                   'outcome_counts': sorted(cnt.values(), reverse=True)}
-    return runs, 'handoff', {'cmd_a': base['cmd'], 'cmd_b': dev[0]['cmd'], 'differing': row_diff(base, dev[0]),
-                             'deviating_runs': len(dev), 'runs': len(gmps), 'quiet_runs_identical': len(qgood) - len(qdev),
-                             'only_shifts': all(shift_equivalent(base, r, spec) for r in dev)}
+        return runs, 'violation', {'what': 'repetitions of the same simulation differ in functional result, metric rows or command kinds',
+                                   'cmd_a': ref['cmd'], 'cmd_b': hard[0]['cmd'], 'differing': row_diff(ref, hard[0])}, notes
+    if dev or notes.get('report_clock_rows'):
+        d0 = dev[0] if dev else runs[-1]
+        return runs, 'handoff', {'cmd_a': ref['cmd'], 'cmd_b': d0['cmd'], 'differing': row_diff(ref, d0), 'deviating_unsettled_runs': len(dev),
+                                 'unsettled_runs': len(U), 'settled_runs_identical': len(S),
+                                 'report_clock_rows': notes.get('report_clock_rows', 0)}, notes
+    return runs, 'ok', None, notes
 
 
 # ------------------------------------------------------------------ main
@@ -376,8 +458,10 @@ def main(argv):
     lib, liblog = run_translator_library(tbin)
     rep.obligation('translator walks the akita packages on the simulation path (informational list)', lib is not None)
     classes = json.load(open(SITES))['sites']
-    keys = [s['key'] for s in found['sites']]
-    new_sites = [s for s in found['sites'] if s['key'] not in classes]
+    keys = [s['key'] for s in found['sites'] if s.get('scope', 'simulator') == 'simulator']
+    sim_sites = [s for s in found['sites'] if s.get('scope', 'simulator') == 'simulator']
+    workload_sites = [s for s in found['sites'] if s.get('scope') == 'workload']
+    new_sites = [s for s in sim_sites if s['key'] not in classes]
     stale = sorted(k for k in classes if k not in keys)
     rep.obligation('every nondeterminism site of the source tree is classified (%d sites)' % len(keys), not new_sites)
 
@@ -469,23 +553,28 @@ def main(argv):
                           text='engine model/implementation mismatch at schedule %d (code %d); no nondeterminism exhibited' % (i, k))
 
     # ---- (iii) repeated whole simulations (validation)
-    gmps = [1, 1, 2, 16] if not thorough else [1, 1, 1, 1, 2, 2, 2, 16, 16, 16]
     specs = workloads(thorough)
+    sim_thorough = thorough
     if replay and replay.get('kind') == 'sim':
         specs = [replay['spec']]
-        gmps = [1, 1, 1, 2, 2, 16, 16, 16]
+        sim_thorough = True
     elif replay:
         specs = []
     sim_summary = []
     n_runs = 0
     handoff_seen = []
     witness = None
+    gmps = sorted({g for g, _ in (PERT_THOROUGH if sim_thorough else PERT_QUICK)})
     t_sim = time.time()
-    with ThreadPoolExecutor(max_workers=4) as pool:
-        for spec in specs:
-            runs, verdict, detail = compare_workload(binary, spec, spec.get('gmps', gmps), pool)
-            n_runs += len(runs)
+    with ThreadPoolExecutor(max_workers=8) as pool:
+        # several workloads at a time (each issues its own repetitions through `pool`)
+        with ThreadPoolExecutor(max_workers=4) as outer:
+            results = list(outer.map(lambda sp: compare_workload(binary, sp, sim_thorough, pool), specs))
+        for spec, (runs, verdict, detail, notes) in zip(specs, results):
+            n_runs += len(runs) + sum(1 for r in runs if r.get('twice'))
             sim_summary.append({'workload': spec['name'], 'flags': ' '.join(spec['flags']), 'runs': len(runs), 'verdict': verdict,
+                                'settled': sum(1 for r in runs if r.get('settle')), 'unsettled': sum(1 for r in runs if not r.get('settle') and not r.get('hold')),
+                                'second_in_process': bool(spec.get('twice')), 'slow_engine_schedule': bool(spec.get('hold')), **notes,
                                 'metric_rows': len(runs[0]['rows'] or []), 'final_time': (runs[0]['out'] or {}).get('final_time'),
                                 'timeouts_retried': sum(r.get('timeouts', 0) for r in runs)})
             if verdict == 'violation':
@@ -494,13 +583,16 @@ def main(argv):
                               text='%s: %s' % (spec['name'], detail.get('what')))
             elif verdict == 'handoff':
                 handoff_seen.append({'workload': spec['name'], **detail})
-        rep.obligation('validation: %d workloads x %d repetitions (GOMAXPROCS %s) agree on final time, all metric rows, functional result'
-                       % (len(specs), len(gmps), sorted(set(gmps))), not any(s['verdict'] == 'violation' for s in sim_summary))
+        rep.obligation('validation: %d workloads, each repeated in fresh processes under perturbed Go runtimes (GOMAXPROCS %s, GOGC off/1/20/default), '
+                       'settled + ordinary + slow-engine schedules, second in-process run: final time, every mgpusim_metrics row, every driver '
+                       'command start/end, functional result agree' % (len(specs), gmps),
+                       not any(s['verdict'] == 'violation' for s in sim_summary))
 
         # ---- known finding: the hand-off witness is run every time
         if not replay or replay.get('kind') == 'handoff':
-            wg = [1, 1, 16, 16, 16, 16, 16] if not thorough else [1, 1, 1, 16, 16, 16, 16, 16, 16, 16, 2, 2]
-            wruns = list(pool.map(lambda a: sim_run(binary, WITNESS, a[1], a[0]), list(enumerate(wg))))
+            wg = [16, 16, 16, 16, 16] if not thorough else [16] * 8 + [2, 2]
+            wjobs = [dict(gmp=g) for g in wg] + [dict(gmp=16, settle=True), dict(gmp=16, gogc='1', settle=True)]
+            wruns = list(pool.map(lambda a: sim_run(binary, WITNESS, a[1].pop('gmp'), a[0], **a[1]), list(enumerate([dict(j) for j in wjobs]))))
             n_runs += len(wruns)
             failed = [r for r in wruns if r['rc'] != 0]
             good = [r for r in wruns if r['rc'] == 0]
@@ -513,11 +605,18 @@ def main(argv):
                 rep.violation({'property': PROP, 'kind': 'sim', 'spec': WITNESS, 'detail': {'what': 'run failed', 'cmd': r['cmd'], 'tail': r['tail']}},
                               text='hand-off witness run failed: exit %s' % r['rc'])
             elif good:
-                base_obs = cntw.most_common(1)[0][0]
-                base = next(r for r in good if observables(r, WITNESS) == base_obs)
+                settled = [r for r in good if r['settle']]
+                base = settled[0] if settled else good[0]
+                base_obs = observables(base, WITNESS)
+                witness['settled_runs_identical'] = len({observables(r, WITNESS) for r in settled}) <= 1
                 dev = [r for r in good if observables(r, WITNESS) != base_obs]
                 hard = [r for r in dev if not same_shape(base, r)]
-                if hard:
+                if not witness['settled_runs_identical']:
+                    rep.violation({'property': PROP, 'kind': 'sim', 'spec': WITNESS,
+                                   'detail': {'what': 'settled repetitions of the hand-off witness differ', 'cmd_a': settled[0]['cmd'],
+                                              'cmd_b': settled[1]['cmd'], 'differing': row_diff(settled[0], settled[1])}},
+                                  text='hand-off witness: settled repetitions differ')
+                elif hard:
                     rep.violation({'property': PROP, 'kind': 'sim', 'spec': WITNESS,
                                    'detail': {'what': 'functional result or metric rows differ', 'cmd_a': base['cmd'], 'cmd_b': hard[0]['cmd'],
                                               'differing': row_diff(base, hard[0])}}, text='hand-off witness: functional result or metric rows differ')
@@ -553,7 +652,7 @@ def main(argv):
         'distinct_nontrivial': len({vlib.case_hash(strip(c)) for c in cases if engine_nontrivial(c)}),
         'rule': 'engine: random schedules (4-63 events, deltas 0-4 cycles, ~25-50%% secondary events, up to 3 Schedule/Run rounds from '
                 'outside, hostile stream with Schedule calls in the past); non-trivial = at least 4 handled events with at least one '
-                'equal-time pair. simulations: each workload repeated in fresh processes with GOMAXPROCS %s' % sorted(set(gmps)),
+                'equal-time pair. simulations: each workload repeated in fresh processes under perturbed Go runtimes (GOMAXPROCS %s x GOGC off/1/20/default)' % gmps,
         'traces_validated_against_impl': len(cases),
         'engine_schedules': len(cases),
         'engine_events_handled': sum(len(c['handled']) for c in cases),
@@ -561,7 +660,8 @@ def main(argv):
         'engine_kinds': dict(collections.Counter(c.get('kind', '') for c in cases)),
         'engine_panics': sum(1 for c in cases if c['crashed']),
         'engine_model_mismatches': len(mism), 'engine_monitor_failures': len(bad),
-        'sites_found': len(keys), 'sites_by_kind': dict(collections.Counter(s['kind'] for s in found['sites'])),
+        'sites_found': len(keys), 'sites_by_kind': dict(collections.Counter(s['kind'] for s in sim_sites)),
+        'workload_input_sites': [{'key': x['key'], 'kind': x['kind']} for x in workload_sites],
         'sites_by_class': dict(by_class), 'sites_unclassified': [s['key'] for s in new_sites], 'classification_stale_entries': stale,
         'packages_walked': found['packages'], 'files_walked': found['files'],
         'unmodelled_library_sites': [{'key': x['key'], 'kind': x['kind'], 'line': x['line']} for x in (lib or {}).get('sites', [])],
